@@ -473,4 +473,98 @@ Proof.
       * split; [exact HI2|]. split; [exact Hx | exact He].
 Qed.
 
+
+(* ---- denotational corollaries ---------------------------------------------------------------- *)
+Notation act := (act T P tr_empty inv).
+Notation act_seq := (act_seq T P tr_empty inv).
+Notation frame := (frame T P tr_empty inv).
+
+Lemma cell_transform_den : forall fuel k t cache s k' s',
+  Inv s -> cell_transform fuel k t cache s = Ok (k', s') ->
+  Inv s' /\ extends s s' /\ forall p b, Den s (act t p) (TRef k) b -> Den s' p (TRef k') b.
+Proof.
+  intros fuel k t cache s k' s' HI H.
+  destruct (cell_transform_spec _ _ _ _ _ _ _ HI H) as (HI' & Hx & He).
+  split; [exact HI'|]. split; [exact Hx|]. intros p b HD.
+  apply (proj1 (Den_mono _ _ _ Hx)) in HD. unfold entry_ok in He. unfold Spec.act in HD.
+  destruct (tr_empty t).
+  - subst k'. exact HD.
+  - exact (proj1 (Img_den s' (inv t)) _ _ He p b HD).
+Qed.
+
+Lemma pot_transform_den : forall fuel t e s e' s',
+  Inv s -> pot_transform fuel t e s = Ok (e', s') ->
+  Inv s' /\ extends s s' /\ forall p b, Den s (act t p) e b -> Den s' p e' b.
+Proof.
+  intros fuel t e s e' s' HI H. unfold Model.pot_transform in H. unfold Spec.act.
+  destruct (tr_empty t) eqn:Et.
+  - inversion H; subst. split; [exact HI|]. split; [apply extends_refl | auto].
+  - assert (Hct : forall c s0 k0 s0', Inv s0 -> cell_transform fuel c t true s0 = Ok (k0, s0') ->
+               Inv s0' /\ extends s0 s0' /\ Img s0' (inv t) (TRef c) (TRef k0)).
+    { intros c s0 k0 s0' HI0 E0. destruct (cell_transform_spec _ _ _ _ _ _ _ HI0 E0) as (A & B & C).
+      split; [exact A|]. split; [exact B|]. unfold entry_ok in C. rewrite Et in C. exact C. }
+    destruct (ptg_spec _ t Hct _ _ _ _ HI H) as (HI1 & Hx1 & Himg).
+    split; [exact HI1|]. split; [exact Hx1|]. intros p b HD.
+    apply (proj1 (Den_mono _ _ _ Hx1)) in HD.
+    exact (proj1 (Img_den s' (inv t)) _ _ Himg p b HD).
+Qed.
+
+Lemma apply_trcl_den : forall fuel ts e s e' s',
+  Inv s -> apply_trcl fuel ts e s = Ok (e', s') ->
+  Inv s' /\ extends s s' /\ forall p b, Den s (act_seq ts p) e b -> Den s' p e' b.
+Proof.
+  intros fuel ts. induction ts as [|t r IH]; intros e s e' s' HI H; cbn in H.
+  - inversion H; subst. split; [exact HI|]. split; [apply extends_refl | auto].
+  - destruct (pot_transform fuel t e s) as [[g1 s1]|] eqn:E1; [|discriminate].
+    destruct (pot_transform_den _ _ _ _ _ _ HI E1) as (HI1 & Hx1 & HD1).
+    destruct (IH _ _ _ _ HI1 H) as (HI2 & Hx2 & HD2).
+    split; [exact HI2|]. split; [eapply extends_trans; eauto|].
+    intros p b HD. apply HD2. apply HD1. exact HD.
+Qed.
+
+Lemma transform_seq_den : forall fuel ts k cache s k' s',
+  Inv s -> transform_seq fuel k ts cache s = Ok (k', s') ->
+  Inv s' /\ extends s s' /\ forall p b, Den s (act_seq ts p) (TRef k) b -> Den s' p (TRef k') b.
+Proof.
+  intros fuel ts. induction ts as [|t r IH]; intros k cache s k' s' HI H; cbn in H.
+  - inversion H; subst. split; [exact HI|]. split; [apply extends_refl | auto].
+  - destruct (cell_transform fuel k t cache s) as [[k1 s1]|] eqn:E1; [|discriminate].
+    destruct (cell_transform_den _ _ _ _ _ _ _ HI E1) as (HI1 & Hx1 & HD1).
+    destruct (IH _ _ _ _ _ HI1 H) as (HI2 & Hx2 & HD2).
+    split; [exact HI2|]. split; [eapply extends_trans; eauto|].
+    intros p b HD. apply HD2. apply HD1. exact HD.
+Qed.
+
+Notation place_filler := (place_filler T surf tr_empty teqb tr_surf).
+
+Lemma place_filler_den : forall fuel cl e cache s k' s',
+  Inv s -> place_filler fuel cl e cache s = Ok (k', s') ->
+  Inv s' /\ extends s s' /\ forall p b, Den s (frame cl p) (TRef e) b -> Den s' p (TRef k') b.
+Proof.
+  intros fuel cl e cache s k' s' HI H. unfold Model.place_filler in H. unfold Spec.frame.
+  destruct (c_filltr cl) as [ft|].
+  - destruct (tr_empty ft) eqn:Et.
+    + exact (transform_seq_den _ _ _ _ _ _ _ HI H).
+    + destruct (cell_transform_den _ _ _ _ _ _ _ HI H) as (A & B & C).
+      split; [exact A|]. split; [exact B|]. intros p b HD. apply C. unfold Spec.act.
+      rewrite Et. exact HD.
+  - exact (transform_seq_den _ _ _ _ _ _ _ HI H).
+Qed.
+
+(* the semantic reading of the cache invariant *)
+Definition cache_coherent (s : state) : Prop :=
+  forall k t v, cget k t (s_cache s) = Some v ->
+  forall p b, Den s (act t p) (TRef k) b -> Den s p (TRef v) b.
+
+Lemma Inv_cache_coherent : forall s, Inv s -> cache_coherent s.
+Proof.
+  intros s [_ Hc] k t v H p b HD. pose proof (cache_hit _ _ _ _ Hc H) as He.
+  unfold entry_ok in He. unfold Spec.act in HD. destruct (tr_empty t).
+  - subst v. exact HD.
+  - exact (proj1 (Img_den s (inv t)) _ _ He p b HD).
+Qed.
+
+Lemma Inv_init : forall s, fresh_ok s -> s_cache s = [] -> Inv s.
+Proof. intros s Hf Hc. split; [exact Hf|]. intros k t v Hin. rewrite Hc in Hin. destruct Hin. Qed.
+
 End Proofs.
